@@ -12,7 +12,7 @@ use std::collections::BTreeMap;
 pub fn def() -> PropDef {
     PropDef {
         id: "C01",
-        rule: "generated: codec family x engine x (k,r) class (tiny/small/pow2-edge/multi-chunk/medium/envelope corner) x even shard size x data spec x received-set spec (size k | k+1 | uniform | all; 8 loss-pattern families; 5 arrival orders); part big_roundtrip: 1..5 (sometimes up to 400) + 1..5 (400) shards whose decoder working set is log-uniform 8 MiB .. 768 MiB (quick) / 2 GiB (thorough). oracle: decode Ok and restored map == exactly the withheld originals. non-trivial: >=1 original withheld and >=1 recovery shard given; distinct by full case",
+        rule: "generated: codec family x engine x (k,r) class (tiny/small/pow2-edge/multi-chunk/medium/envelope corner) x even shard size x data spec x received-set spec (size k | k+1 | uniform | all; 8 loss-pattern families; 5 arrival orders); part big_roundtrip: 1..5 (sometimes up to 400, rarely up to 6000) + 1..5 (400, 6000) shards whose decoder working set is log-uniform 8 MiB .. 768 MiB (quick) / 2 GiB (thorough). oracle: decode Ok and restored map == exactly the withheld originals. non-trivial: >=1 original withheld and >=1 recovery shard given; distinct by full case",
         assumptions: &["shard contents and received sets are expanded deterministically from generated specs"],
         parts,
     }
@@ -235,7 +235,7 @@ pub struct BigRound {
 fn big_strategy(t: Tier) -> BoxedStrategy<BigRound> {
     let max_q = t.pick(4 * 29 + 2u8, 4 * 31u8);
     // few huge shards, or tens to hundreds of long shards (blocked loops keyed on shard count AND length)
-    let cnt = || prop_oneof![3 => 1usize..=5, 1 => 6usize..=64, 1 => 65usize..=400];
+    let cnt = || prop_oneof![6 => 1usize..=5, 2 => 6usize..=64, 2 => 65usize..=400, 1 => 401usize..=6000];
     (gen::kind_any(), any::<u8>(), cnt(), cnt(), prop_oneof![1 => (4 * 23u8)..=(4 * 26u8), 3 => (4 * 26u8)..=max_q], 0usize..2048, gen::recv_spec(), any::<u64>())
         .prop_map(|(kind, eraw, k, r, bytes_q, jitter, recv, seed)| {
             let fast: Vec<Eng> = [Eng::NoSimd, Eng::Ssse3, Eng::Avx2, Eng::Default].iter().copied().filter(|e| e.available()).collect();
